@@ -13,6 +13,7 @@
                             the letters typed so far counting as given
      C07_chain_only_noarg   and only when every letter typed so far takes no argument
      C07_subcommands_exact  names and aliases of exactly the visible, non-deprecated sub-commands
+     C07_offered_short_accepted  an offered `-s`, appended likewise, is accepted and sets the flag with that shorthand
      C07_offered_accepted   an offered long name, appended to a line the parser model of C01
                             accepts (with a value if the flag needs one), is accepted and sets
                             that very flag, leaving the positional arguments alone
@@ -67,3 +68,11 @@ Theorem C07_offered_accepted : forall fs il ws st n f v,
               p_args st' = p_args st.
 Proof. exact offered_long_accepted. Qed.
 Print Assumptions C07_offered_accepted.
+
+Theorem C07_offered_short_accepted : forall fs il ws st c f v,
+  parse fs il ws = POk st -> p_stopped st = false -> beq c (byte 45) = false -> Pflag.find_short fs c = Some f ->
+  exists st', parse fs il (ws ++ [byte 45; c] :: (if takes_next f then [v] else [])) = POk st' /\
+              last (p_sets st') no_set = (fname f, if takes_next f then v else noopt f) /\
+              p_args st' = p_args st.
+Proof. exact offered_short_accepted. Qed.
+Print Assumptions C07_offered_short_accepted.
